@@ -338,9 +338,21 @@ def run(R):
     R.check(len(fv) == 1 and q.src(fv[0].args[0]).endswith(".value"), "C17.ENDMARK", send.qualname + ":first-value", R.site(send),
             "a Value produced immediately is returned as ConstFuture(value)", "an immediately produced Value is not returned as a constant future of its value")
     # printing an async generator (e.g. as a task argument under COLLECT_PERF_STATS) must work in every state
+    # ... as long as a failing repr() of a task argument can reach the computation at all: the profiler's task names (to_str) format
+    # the arguments with %r; since that formatting sits in a handler covering Exception (fix F22, decided by C20.DIAG-SAFE) a raising
+    # __repr__ is a matter of C18 only, and C17 must not alarm about it
     from .c18 import diag_robust
+    from ..cfg import ExcHierarchy
     rp = ag.methods.get("__repr__")
-    if rp is not None:
+    ts_ = R.repo.cls("async_task.AsyncTask").methods.get("to_str")
+    contained = False
+    if ts_ is not None:
+        hier_ = ExcHierarchy(R.repo)
+        fm = [n for n in q.scope_nodes(ts_.node) if isinstance(n, ast.BinOp) and isinstance(n.op, ast.Mod) and "self.args" in q.src(n.right)]
+        contained = bool(fm) and all(any(kit.handler_covers(h, "Exception", hier_) and not kit.handler_reraises(h) for t in kit.enclosing_try_handlers(n) for h in t.handlers) for n in fm)
+    if rp is not None and contained:
+        R.ok("C17.REPR", R.site(rp), "the profiler's task names tolerate an argument whose repr() raises: the generator's __repr__ cannot reach a computation (C18 decides its totality)")
+    elif rp is not None:
         nrob = diag_robust(R, {rp.qualname: rp}, "C17.REPR")
         fields = ag.fields()
         for recv, attr, node in q.attr_loads(rp.node):
